@@ -64,15 +64,14 @@ Definition dispatch (f : bytes) (a : list bytes) : list bytes :=
   if is f "skip" then [b2 (should_skip_name (arg 0 a)); b2 (skipped_name (arg 0 a)); b2 (matches_pattern (arg 0 a))]
   else if is f "run" then
     (* args: root, keep, lazy, now, n, entries.
-       reply: wf_tree, failed, wf_shape (= wf_tree without the condition on modification times), number of events,
-       events in walk order, then (path, kind, contents, mtime) of every path
+       reply: wf, failed, number of events, events in walk order, then (path, kind, contents, mtime) of every path
        of the listing and every sibling, after the sequential run of the walk's events *)
     let root := arg 0 a in let keep := flag (arg 1 a) in let lazy := flag (arg 2 a) in let now := znum (arg 3 a) in
     let '(l, os, _) := dec_entries (N.to_nat (num (arg 4 a))) (skipn 5 a) in
     let g := oracle os in
     let es := walk l in
     let st := run g keep lazy now (init (lookup l)) es in
-    [b2 (wf_tree g lazy root l); b2 (exit_fail (errs st)); b2 (wf_shape g lazy root l); dec (N.of_nat (length es))]
+    [b2 (wf_tree g lazy root l); b2 (exit_fail (errs st)); dec (N.of_nat (length es))]
     ++ map of_path es
     ++ flat_map (fun p => enc_entry p (tree st p)) (map fst l ++ siblings l)
   else if is f "check" then
